@@ -39,6 +39,7 @@ from .. import c09_engines as A
 from ..evidence import Run
 
 PID = "C09"
+REPLAY_RERUNS_TIER = True   # exhaustive registry enumeration, ~1 s
 SHARDS = {"quick": 1, "thorough": 4}
 N_PARAM = {"quick": 1200, "thorough": 16000}
 
